@@ -220,7 +220,7 @@ class Functor(pg_object.Object, utils.Functor):
         default_args.add(arg_name)
         non_default_args.discard(arg_name)
 
-    if signature.varargs and not varargs:
+    if signature.varargs and not bound_kwargs.get(signature.varargs.name):
       default_args.add(signature.varargs.name)
 
     super().__init__(allow_partial=True,
